@@ -48,7 +48,7 @@ fn marked_values() -> gen::VS {
 /// data trees seeded with markers under the keys the templates read
 fn marked_data() -> gen::VS {
     let obj = (marked_values(), vec(marked_values(), 0..=4), marked_values(), marked_values(), marked_values(), gen::scalars()).prop_map(|(x, xs, who, allowed, d, extra)| {
-        json!({"x": x, "xs": xs, "secret": 42, "who": who, "allowed": [allowed, "guest", 42], "d": d, "k": "leak", "rows": [[{"+": [1, "x"]}, 2], [3, 4]], "extra": extra, "keys": ["secret", "nope"]})
+        json!({"x": x, "xs": xs, "secret": 42, "who": who, "allowed": [allowed, "guest", 42], "d": d, "k": "leak", "rows": [[{"+": [1, "x"]}, 2], [3, 4]], "extra": extra, "keys": ["secret", "nope"], "required": [{"log": "LEAK"}, {"var": "secret"}, "nope"]})
     });
     let arr = vec(marked_values(), 1..=4).prop_map(Value::Array);
     prop_oneof![5 => obj, 2 => arr, 1 => marked_values()].boxed()
@@ -72,7 +72,7 @@ fn probe() -> gen::VS {
 
 /// rules that route data through every value-carrying path
 fn routing_rules() -> gen::VS {
-    let src = || select(vec!["x", "xs", "who", "allowed", "d", "rows", "extra", "", "0", "1", "xs.0", "allowed.0", "rows.0"]).prop_map(|k| json!({"var": k}));
+    let src = || select(vec!["x", "xs", "who", "allowed", "d", "rows", "extra", "", "0", "1", "xs.0", "allowed.0", "rows.0", "required"]).prop_map(|k| json!({"var": k}));
     prop_oneof![
         // var: plain, default, computed key, default chosen
         src(),
@@ -109,6 +109,18 @@ fn routing_rules() -> gen::VS {
         src().prop_map(|a| json!({"missing": a})),
         src().prop_map(|a| json!({"missing": [a]})),
         src().prop_map(|a| json!({"missing_some": [1, a]})),
+        // computed from literals only: the *result* of an operator holds an operation-shaped value
+        (markers(), probe()).prop_map(|(m, p)| json!({"some": [{"merge": [[m]]}, p]})),
+        (markers(), probe()).prop_map(|(m, p)| json!({"all": [{"merge": [[m], [m]]}, p]})),
+        (markers(), probe()).prop_map(|(m, p)| json!({"none": [{"filter": [[m], true]}, p]})),
+        (markers(), probe()).prop_map(|(m, p)| json!({"map": [{"merge": [[m]]}, p]})),
+        (markers(), probe()).prop_map(|(m, p)| json!({"some": [{"if": [true, [m]]}, p]})),
+        markers().prop_map(|m| json!({"in": [42, {"merge": [[m]]}]})),
+        // key lists that are data
+        src().prop_map(|a| json!({"missing_some": [1, {"merge": [a]}]})),
+        src().prop_map(|a| json!({"missing_some": [2, {"var": ["nope", a]}]})),
+        markers().prop_map(|m| json!({"missing_some": [1, {"merge": [[m], ["secret"]]}]})),
+        markers().prop_map(|m| json!({"missing": {"merge": [[m, "secret", "nope"]]}})),
         // two-stage compositions
         (src(), probe()).prop_map(|(c, p)| json!({"map": [{"filter": [c, true]}, p]})),
         (src(), probe()).prop_map(|(c, p)| json!({"filter": [{"map": [c, {"var": ""}]}, p]})),
@@ -120,9 +132,27 @@ fn routing_rules() -> gen::VS {
     .boxed()
 }
 
+fn mentions_log(v: &Value) -> bool {
+    match v {
+        Value::Object(o) => o.contains_key("log") || o.values().any(mentions_log),
+        Value::Array(a) => a.iter().any(mentions_log),
+        _ => false,
+    }
+}
+
+/// Model-free, valid in every zone: a rule that contains no `log` anywhere cannot write anything; the data is full of
+/// {"log":"LEAK"} markers, so any re-interpretation of data as logic shows up on stdout.
+fn no_output_without_log(rule: &Value, data: &Value, lines: &[String]) -> Result<(), String> {
+    if !mentions_log(rule) && !lines.is_empty() {
+        return Err(format!("the rule contains no log operator, yet evaluation wrote {:?}: data was executed as logic: {}", lines, fmt_case(rule, data)));
+    }
+    Ok(())
+}
+
 fn check_routes(case: &Value, obs: &mut Obs) -> Result<(), String> {
     let (rule, data) = (rule_of(case), data_of(case));
     let d = diff(rule, data, obs, TraceMode::Multiset)?;
+    no_output_without_log(rule, data, &d.lines)?;
     if d.ctx.inert_op_shaped > 0 && matches!(d.model, Res::Ok(_) | Res::Err) {
         let root = model::eval::as_operation(rule).map(|x| x.0).unwrap_or("literal");
         obs.nt(&format!("{}: operation-shaped value read or produced", root));
@@ -137,7 +167,7 @@ fn gen_routes() -> BoxedStrategy<Value> {
 }
 
 fn gen_routes_general() -> BoxedStrategy<Value> {
-    let leaf = prop_oneof![3 => gen::scalars(), 1 => markers()].boxed();
+    let leaf = prop_oneof![3 => gen::scalars(), 1 => markers(), 1 => vec(markers(), 1..=2).prop_map(Value::Array), 1 => vec(markers(), 1..=2).prop_map(|m| json!([m]))].boxed();
     let cfg = rules::Cfg::all_ops().leaf(leaf).keys(&["x", "xs", "who", "allowed", "d", "rows", "secret", "k", "extra", "0", "1"]).vars(8).poison(0).bad_arity(5);
     gen::case2(rules::rooted(cfg), marked_data())
 }
